@@ -189,6 +189,10 @@ func checkMain(prop, tier string, only string) int {
 		}
 		for _, m := range r.Inconclusive {
 			inconclusive++
+			m = strings.Join(strings.Fields(m), " ")
+			if len(m) > 400 {
+				m = m[:400] + " …"
+			}
 			lines = append(lines, fmt.Sprintf("INCONCLUSIVE: %s: %s", tag, m))
 		}
 		for _, m := range r.SolverErrors {
@@ -202,8 +206,19 @@ func checkMain(prop, tier string, only string) int {
 			obligations++
 			sample := map[string]any{"harness": tag, "obligation": ob.ID, "kind": ob.Kind, "verdict": ob.Verdict, "path_queries": ob.Paths, "ms": ob.Ms}
 			switch ob.Kind {
-			case "cover":
+			case "cover", "require":
 				switch {
+				case ob.Kind == "require" && ob.Replay == "required-success-lost":
+					path := filepath.Join(verifRoot, "replays", prop, sanitize(tag+"-"+ob.ID)+".json")
+					rp := map[string]any{"property": prop, "harness": r.Harness, "params": r.Params, "assertion": ob.ID, "model": ob.CexUsed, "trace": ob.Trace, "required": true}
+					data, _ := json.MarshalIndent(rp, "", " ")
+					os.WriteFile(path, data, 0644)
+					violations++
+					lines = append(lines, fmt.Sprintf("VIOLATION property=%s replay=%s", prop, path))
+					lines = append(lines, fmt.Sprintf("  harness %s: the required success %s is unreachable (unsat) and the witness of the unchanged tree fails on the real VM:%s", tag, ob.ID, fmtModel(trimModel(ob.CexUsed))))
+					for _, t := range ob.Trace {
+						lines = append(lines, "  "+t)
+					}
 				case ob.Verdict == "sat" && strings.HasPrefix(ob.Replay, "agrees"):
 					discharged++
 					sample["witness"] = ob.Model
@@ -316,6 +331,7 @@ func replayMain(path string) int {
 		Params    []int             `json:"params"`
 		Assertion string            `json:"assertion"`
 		Model     map[string]string `json:"model"`
+		Required  bool              `json:"required"`
 	}
 	if err := json.Unmarshal(data, &rp); err != nil {
 		fmt.Println(err)
@@ -338,10 +354,77 @@ func replayMain(path string) int {
 	for _, l := range e.replayLog {
 		fmt.Println(l)
 	}
+	if rp.Required {
+		if e.replayCovers[rp.Assertion] == 0 {
+			fmt.Printf("the required success %s is not reached on the real VM\n", rp.Assertion)
+			fmt.Printf("VIOLATION property=%s replay=%s\n", rp.Property, path)
+			return 1
+		}
+		fmt.Println("the required success is reached on the real VM for this input")
+		return 0
+	}
 	if e.replayFails[rp.Assertion] > 0 {
 		fmt.Printf("VIOLATION property=%s replay=%s\n", rp.Property, path)
 		return 1
 	}
 	fmt.Println("the assertion holds on the real VM for this input")
+	return 0
+}
+
+
+// witnessesMain: `neosym witnesses <prop>` runs the quick AND thorough parameter tuples of the property and
+// commits one witness per required success (run on the unchanged tree only; never part of a check).
+func witnessesMain(prop string) int {
+	wf := witnessFile{}
+	seen := map[string]bool{}
+	var jobs []jobSpec
+	for i := range registry {
+		h := &registry[i]
+		if h.Prop != prop {
+			continue
+		}
+		for _, ps := range [][][]int{h.Quick, h.Thorough} {
+			if ps == nil {
+				ps = [][]int{nil}
+			}
+			for _, p := range ps {
+				k := fmt.Sprint(h.Func, p)
+				if !seen[k] {
+					seen[k] = true
+					jobs = append(jobs, jobSpec{h, p})
+				}
+			}
+		}
+	}
+	results := make([]*JobResult, len(jobs))
+	sem := make(chan struct{}, 14)
+	var wg sync.WaitGroup
+	for i := range jobs {
+		wg.Add(1)
+		go func(i int) {
+			defer wg.Done()
+			sem <- struct{}{}
+			defer func() { <-sem }()
+			results[i] = runJobProcess(jobs[i], "witness", 60*time.Minute)
+		}(i)
+	}
+	wg.Wait()
+	n := 0
+	for i, r := range results {
+		for _, ob := range r.Obligations {
+			if ob.Kind == "require" && ob.Verdict == "sat" && strings.HasPrefix(ob.Replay, "agrees") {
+				wf[witnessKey(jobs[i].h, jobs[i].params, ob.ID)] = ob.FullModel
+				n++
+			}
+		}
+	}
+	if n == 0 {
+		fmt.Println("no required successes in", prop)
+		return 0
+	}
+	os.MkdirAll(filepath.Join(verifRoot, "spec", "witnesses"), 0755)
+	data, _ := json.MarshalIndent(wf, "", " ")
+	os.WriteFile(filepath.Join(verifRoot, "spec", "witnesses", prop+".json"), data, 0644)
+	fmt.Printf("%s: %d witnesses of required successes committed to spec/witnesses/%s.json\n", prop, n, prop)
 	return 0
 }
